@@ -227,6 +227,29 @@ def judge(rec, rnd, tmp, k):
                     rec.violation('report-view-membership-differs', f'view {v["name"]} ({v["filter"]!r}): merchant {n} listed={n in secs.get(v["name"], set())}, '
                                   f'views model says {exp_in}', case)
                     return
+    # ---- the same views as `tally explain --view V [--category C]` lists them: the members `tally up` put into V (narrowed to C), judged over the WHOLE budget
+    if b['views'] and rnd.random() < .7:
+        secs = {s_['title']: {m['displayName'] for m in s_['merchants'].values()} for s_ in data.get('sections', {}).values()}
+        jm = {m['name']: m for m in js['merchants']}
+        per = [x for x in b['views'][1] if 'period(' in x['filter'] or 'lim' in x['filter']]      # filters that depend on the length of the WHOLE analysis period
+        v = rnd.choice(per) if per and rnd.random() < .7 else rnd.choice(b['views'][1])
+        cats = sorted({m['category'] for m in js['merchants'] if m['category']})
+        cat = rnd.choice(cats) if cats and rnd.random() < .7 else None
+        pe = B.tally(root, 'explain', '--view', v['name'], *(['--category', cat] if cat else []), cfg, '--format', 'json')
+        rec.count('cli_runs')
+        try:
+            ej = json.loads(pe.stdout[pe.stdout.index('{'):])
+            listed = {m['name'] for m in ej['merchants']}
+        except Exception:
+            listed = None
+        want = {n for n in secs.get(v['name'], set()) if cat is None or (jm.get(n) or {}).get('category', '').lower() == cat.lower()}
+        rec.count('explain_view_listing_checks')
+        if listed is None:
+            if want:
+                rec.violation('explain-view-listing-fails', f'explain --view {v["name"]} --category {cat}: exit {pe.returncode} {pe.stderr[-200:]!r} {pe.stdout[:100]!r}', case)
+        elif listed != want:
+            rec.violation('explain-view-listing-differs-from-up', f'explain --view {v["name"]}' + (f' --category {cat}' if cat else '') + f' lists {sorted(listed)}; tally up puts '
+                          f'{sorted(want)} into that view' + (' (of that category)' if cat else '') + f'; filter {v["filter"]!r}', case)
     if len(b['sources']) >= 2 or b['supplemental'] or b['views']:
         rec.interesting(core.digest(case))
     # ---- one-setting flip on one source
@@ -329,6 +352,125 @@ def judge(rec, rnd, tmp, k):
     shutil.rmtree(root, ignore_errors=True)
 
 
+def judge_explain_view_period(rec, rnd, tmp, k):
+    """Views are grouped over the whole budget whichever way the listing is asked for: a view whose filter depends on period() lists, under
+    `explain --view V --category C` / `--tags T`, exactly the members `tally up` gives V that are of category C / carry tag T."""
+    root = os.path.join(tmp, 'pv%d' % k)
+    os.makedirs(os.path.join(root, 'config'))
+    os.makedirs(os.path.join(root, 'data'))
+    nmonths = rnd.choice([8, 10, 12])
+    short = rnd.randint(2, 4)                 # the merchants of category Seasonal are active in `short` months only
+    frac = rnd.choice([0.5, 0.6, 0.75])
+    rows = []
+    for m in range(1, nmonths + 1):
+        rows.append('2025-%02d-05,CITY POWER,80.00' % m)
+        rows.append('2025-%02d-09,CORNER CAFE,%d.50' % (m, 4 + m))
+        if m <= short:
+            rows.append('2025-%02d-11,SKI PASS,60.00' % m)
+            rows.append('2025-%02d-12,SNOW CAFE,9.00' % m)
+    rnd.shuffle(rows)
+    with open(os.path.join(root, 'data', 'card.csv'), 'w') as f:
+        f.write('Date,Description,Amount\n' + '\n'.join(rows) + '\n')
+    with open(os.path.join(root, 'config', 'settings.yaml'), 'w') as f:
+        f.write('year: 2025\nmerchants_file: config/merchants.rules\nviews_file: config/views.rules\ndata_sources:\n  - name: Card\n    file: data/card.csv\n'
+                '    format: "{date:%Y-%m-%d},{description},{amount}"\n')
+    with open(os.path.join(root, 'config', 'merchants.rules'), 'w') as f:
+        f.write('[City Power]\nmatch: contains("CITY POWER")\ncategory: Bills\nsubcategory: Power\n\n[Corner Cafe]\nmatch: contains("CORNER CAFE")\ncategory: Food\nsubcategory: Cafe\n'
+                'tags: treat\n\n[Ski Pass]\nmatch: contains("SKI PASS")\ncategory: Seasonal\nsubcategory: Sport\ntags: winter\n\n[Snow Cafe]\nmatch: contains("SNOW CAFE")\n'
+                'category: Seasonal\nsubcategory: Cafe\ntags: winter, treat\n')
+    vf = rnd.choice(['months >= period("month") * %s' % frac, 'months >= need', 'months / period("month") >= %s' % frac])
+    with open(os.path.join(root, 'config', 'views.rules'), 'w') as f:
+        f.write('need = period("month") * %s\n\n[Regular]\nfilter: %s\n\n[Everything]\nfilter: true\n' % (frac, vf))
+    cfg = os.path.join(root, 'config')
+    case = {'kind': 'explain-view-period', 'months': nmonths, 'short': short, 'filter': vf}
+    rec.case()
+    try:
+        pu = B.tally(root, 'up', cfg, '--format', 'json', '-v', '-q')
+        html = os.path.join(root, 'output', 'spending_summary.html')
+        B.tally(root, 'up', cfg, '-q')
+        data = B.html_data(html)
+        regular = {m['displayName'] for s_ in data.get('sections', {}).values() if s_['title'] == 'Regular' for m in s_['merchants'].values()}
+        rec.count('cli_runs', 2)
+        want_all = {'City Power', 'Corner Cafe'} | ({'Ski Pass', 'Snow Cafe'} if short >= nmonths * frac else set())
+        if regular != want_all:
+            rec.violation('report-view-membership-differs', f'{nmonths} months, Seasonal merchants active in {short}: view Regular ({vf!r}) holds {sorted(regular)}, expected {sorted(want_all)}', case)
+            return
+        cat_of = {'City Power': 'Bills', 'Corner Cafe': 'Food', 'Ski Pass': 'Seasonal', 'Snow Cafe': 'Seasonal'}
+        tag_of = {'City Power': set(), 'Corner Cafe': {'treat'}, 'Ski Pass': {'winter'}, 'Snow Cafe': {'winter', 'treat'}}
+        for extra, want in ([(['--category', c], {n for n in regular if cat_of[n] == c}) for c in ('Seasonal', 'Food', 'seasonal')] +
+                            [(['--tags', tg], {n for n in regular if tg in tag_of[n]}) for tg in ('winter', 'treat')] + [([], regular)]):
+            pe = B.tally(root, 'explain', '--view', 'Regular', *extra, cfg, '--format', 'json')
+            rec.count('cli_runs')
+            rec.count('explain_view_listing_checks')
+            if 'No merchants found' in pe.stdout or '"merchants": []' in pe.stdout.replace('\n', '').replace('  ', ''):
+                listed = set()
+            else:
+                try:
+                    listed = {m['name'] for m in json.loads(pe.stdout[pe.stdout.index('{'):])['merchants']}
+                except Exception:
+                    rec.violation('explain-view-listing-fails', f'explain --view Regular {extra}: exit {pe.returncode} {pe.stderr[-200:]!r} {pe.stdout[:100]!r}', case)
+                    return
+            if listed != want:
+                rec.violation('explain-view-listing-differs-from-up', f'{nmonths} months, Seasonal merchants active in {short}; view Regular: {vf!r}: explain --view Regular '
+                              f'{" ".join(extra)} lists {sorted(listed)}; tally up puts {sorted(want)} there', case)
+                return
+    finally:
+        shutil.rmtree(root, ignore_errors=True)
+
+
+def judge_rerun_same_output(rec, rnd, tmp, k):
+    """`tally up` run again into the same output folder after a statement or the rules changed: what is on disk afterwards is the report of the
+    budget as it is NOW (page and, with --no-embedded-html, the files beside it), also when the new data has the same size as the old."""
+    root = os.path.join(tmp, 'rr%d' % k)
+    os.makedirs(os.path.join(root, 'config'))
+    os.makedirs(os.path.join(root, 'data'))
+    a1, a2 = rnd.choice([('12.50', '15.20'), ('40.00', '99.99'), ('7.25', '3.10')])
+    c1, c2 = rnd.choice([('Food', 'Fuel'), ('Bills', 'Books')])
+
+    def write(x, y, ca, cb):
+        with open(os.path.join(root, 'data', 'card.csv'), 'w') as f:
+            f.write('Date,Description,Amount\n2025-01-05,CORNER CAFE,%s\n2025-02-09,BLUE STATION,%s\n2025-02-11,CORNER CAFE,5.00\n' % (x, y))
+        with open(os.path.join(root, 'config', 'merchants.rules'), 'w') as f:
+            f.write('[Corner Cafe]\nmatch: contains("CORNER CAFE")\ncategory: %s\n\n[Blue Station]\nmatch: contains("BLUE STATION")\ncategory: %s\n' % (ca, cb))
+    with open(os.path.join(root, 'config', 'settings.yaml'), 'w') as f:
+        f.write('year: 2025\nmerchants_file: config/merchants.rules\ndata_sources:\n  - name: Card\n    file: data/card.csv\n    format: "{date:%Y-%m-%d},{description},{amount}"\n')
+    cfg = os.path.join(root, 'config')
+    mode = rnd.choice(['--no-embedded-html', '--no-embedded-html', None])
+    what = rnd.choice(['amounts', 'categories'])
+    case = {'kind': 'rerun-same-output', 'mode': mode, 'changed': what}
+    rec.case()
+
+    def observed():
+        out = os.path.join(root, 'output')
+        if mode:
+            body = open(os.path.join(out, 'spending_data.js'), encoding='utf-8').read().strip()
+            data = json.loads(body[len('window.spendingData ='):].rstrip(';'))
+        else:
+            data = B.html_data(os.path.join(out, 'spending_summary.html'))
+        return sorted((t[1], t[2], t[5]) for t in B.html_transactions(data))
+    try:
+        write(a1, a2, c1, c2)
+        p1 = B.tally(root, 'up', cfg, '-q', *([mode] if mode else []))
+        first = observed()
+        if what == 'amounts':
+            write(a2, a1, c1, c2)
+            want = sorted([('Corner Cafe', c1, float(a2)), ('Blue Station', c2, float(a1)), ('Corner Cafe', c1, 5.0)])
+        else:
+            write(a1, a2, c2, c1)
+            want = sorted([('Corner Cafe', c2, float(a1)), ('Blue Station', c1, float(a2)), ('Corner Cafe', c2, 5.0)])
+        p2 = B.tally(root, 'up', cfg, '-q', *([mode] if mode else []))
+        rec.count('cli_runs', 2)
+        rec.count('reruns_into_the_same_output_folder')
+        second = observed()
+        if second != want:
+            rec.violation('stale-report-after-rerun' + (':external-files' if mode else ''), f'{what} exchanged between two runs of tally up {mode or ""}: the report on disk holds '
+                          f'{second}, the budget now is {want} (first run: {first})', case)
+    except Exception as e:
+        rec.violation('rerun-same-output-fails', f'{type(e).__name__}: {e}', case)
+    finally:
+        shutil.rmtree(root, ignore_errors=True)
+
+
 def run(rec, shard, nshards, t):
     core.import_tally()
     rnd = core.rng_for('C11', shard)
@@ -336,6 +478,9 @@ def run(rec, shard, nshards, t):
     try:
         for k in range(max(1, (64 if t == 'quick' else 2500) // nshards)):
             judge(rec, rnd, tmp, k)
+        for k in range(max(1, (8 if t == 'quick' else 160) // nshards)):
+            judge_explain_view_period(rec, rnd, tmp, k)
+            judge_rerun_same_output(rec, rnd, tmp, k)
         if shard == 0:
             b = B.gen_budget(rnd)
             rec.sample({'settings': B.settings_dict(b), 'first_file': b['sources'][0]['text'][:300]})
@@ -348,6 +493,14 @@ def replay(rec, case):
     rnd = core.rng_for('C11', 'replay')
     tmp = tempfile.mkdtemp(prefix='vt-c11-')
     try:
+        if case.get('kind') == 'rerun-same-output':
+            for k in range(12):
+                judge_rerun_same_output(rec, rnd, tmp, k)
+            return
+        if case.get('kind') == 'explain-view-period':
+            for k in range(12):
+                judge_explain_view_period(rec, rnd, tmp, k)
+            return
         for k in range(40):
             judge(rec, rnd, tmp, k)
     finally:
